@@ -22,7 +22,7 @@ from .. import build, sp
 ID = "C20"
 META = {
     "technique": "runtime monitoring: differential monitor of parse_string/parse_file/write_string/write_file against the harness-computed fold of probe/shipped middleware stacks; sys.addaudithook + ResourceWarning monitor on file access; splice-protocol monitor on BlockMiddleware.transform",
-    "level_text": "All stacks of 0-3 middlewares drawn from order-sensitive probes (block and library level) and shipped order-sensitive pairs are passed in every argument position of the four entry points, as list, tuple, one-shot iterator and generator, on 20 documents; results are compared by fingerprint / bytes with the fold computed by the harness itself (own per-block dispatch, splice and fresh Library; default stacks written out from the statement; a key-renaming probe makes stale key indexes visible). parse_file is compared with parse_string of the file's decoded content (decoding + universal newlines, computed from the bytes in memory) for utf-8, latin-1, gbk and utf-16 and LF, CRLF and CR line ends; write_file to a path and to file objects is read back; an audit hook checks that only the target file is opened and none is left open. Probe block middlewares return None, empty, one block, lists/tuples of k blocks, generators and non-block objects for each of the five block kinds. write_file targets: path, StringIO, open() text file, an object with only write(str), a codecs stream writer, a text-mode SpooledTemporaryFile, a TextIOWrapper over BytesIO. The splice probe also comes as a middleware overriding transform_block itself, answering for entries, implicit comments and the four failed kinds (parsing-failed, duplicate-key, duplicate-field, middleware-error) with every result shape.",
+    "level_text": "All stacks of 0-3 middlewares drawn from order-sensitive probes (block and library level) and shipped order-sensitive pairs are passed in every argument position of the four entry points, as list, tuple, one-shot iterator and generator, on 20 documents; results are compared by fingerprint / bytes with the fold computed by the harness itself (own per-block dispatch, splice and fresh Library; default stacks written out from the statement; a key-renaming probe makes stale key indexes visible). parse_file is compared with parse_string of the file's decoded content (decoding + universal newlines, computed from the bytes in memory) for utf-8, latin-1, gbk and utf-16 and LF, CRLF and CR line ends; write_file to a path and to file objects is read back; an audit hook checks that only the target file is opened and none is left open. Probe block middlewares return None, empty, one block, lists/tuples of k blocks, generators and non-block objects for each of the five block kinds. write_file targets: path, StringIO, open() text file, an object with only write(str), a codecs stream writer, a text-mode SpooledTemporaryFile, a TextIOWrapper over BytesIO. The splice probe also comes as a middleware overriding transform_block itself, answering for entries, implicit comments and the four failed kinds (parsing-failed, duplicate-key, duplicate-field, middleware-error) with every result shape. parse_file is also run on documents just over 4 KiB, 8 KiB, 64 KiB and 1 MiB (thorough 8 MiB) whose enclosed values are spelled like macros defined only at the very end.",
     "level_note": "'decoded content' = what Python text I/O yields for the bytes; write_file uses the platform default encoding, so its documents are ASCII",
 }
 RULE = ("case = (entry point / argument position, document index, stack spec) or (splice probe: block kind x returned value shape); non-trivial = a stack of "
